@@ -173,6 +173,106 @@ theorem EndDates_agrees (p : Knut.Partition) : date.Partition.EndDates (partitio
   simp [date.Partition.EndDates, Knut.Partition.endDates, partitionGo, foldl_append_singleton (fun el : date.Period => el.End),
     Function.comp_def]
 
+/-- `Partition.Align` (Go: binary search `sort.Search` over the period ends) is the model's linear search whenever
+the period ends are sorted; `none` of the model is Go's zero `time.Time` (day 0) -/
+theorem Align_agrees_of_sorted (span : Knut.Period) (iv : Knut.Interval) (ps : List Knut.Period) (d : Int)
+    (hs : List.Pairwise (fun p q : Knut.Period => p.stop ≤ q.stop) ps) :
+    date.Partition.Align (partitionGo ⟨span, iv, ps⟩) d = GoSem.Outcome.ok ((alignIn ps d).getD 0) := by
+  have hget := List.pairwise_iff_getElem.mp hs
+  have hf : ∀ k : Nat, k < ps.length →
+      GoSem.Outcome.bind (index (ps.map periodGo) (k : Int)) (fun t1 => GoSem.Outcome.ok (!(Time.Before t1.End d)))
+        = GoSem.Outcome.ok (match ps[k]? with
+            | some x => !(decide (x.stop < d))
+            | none => true) := by
+    intro k hk
+    have : index (ps.map periodGo) (k : Int) = GoSem.Outcome.ok (periodGo ps[k]) := by
+      rw [index_ok _ _ (by omega) (by simpa using hk)]; simp
+    simp only [this, GoSem.Outcome.bind, List.getElem?_eq_getElem hk, periodGo_End, Time.Before]
+    congr
+  have hmono : ∀ a b : Nat, a ≤ b → b < ps.length →
+      (match ps[a]? with
+            | some x => !(decide (x.stop < d))
+            | none => true) = true →
+      (match ps[b]? with
+            | some x => !(decide (x.stop < d))
+            | none => true) = true := by
+    intro a b hab hb ha
+    have hal : a < ps.length := by omega
+    simp only [List.getElem?_eq_getElem hal, List.getElem?_eq_getElem hb] at ha ⊢
+    by_cases hab' : a = b
+    · subst hab'; exact ha
+    · have := hget a b hal hb (by omega)
+      simp at ha ⊢; omega
+  obtain ⟨r, hr, hrn, hlo, hhi⟩ := sortSearch_spec
+    (f := fun i : Int => GoSem.Outcome.bind (index (ps.map periodGo) i) (fun t1 => GoSem.Outcome.ok (!(Time.Before t1.End d))))
+    (p := fun k : Nat => match ps[k]? with
+            | some x => !(decide (x.stop < d))
+            | none => true) ps.length hf hmono
+  have hfind : ps.find? (fun p => !(decide (p.stop < d))) = ps[r]? := by
+    apply find?_eq_getElem? _ ps r hrn
+    · intro k h hk
+      have := hlo k hk
+      simpa [List.getElem?_eq_getElem h] using this
+    · intro h
+      have := hhi h
+      simpa [List.getElem?_eq_getElem h] using this
+  unfold date.Partition.Align
+  simp only [partitionGo, len, List.length_map]
+  rw [hr]
+  simp only [GoSem.Outcome.bind, alignIn]
+  rw [hfind]
+  by_cases hlt : r < ps.length
+  · have h1 : (r : Int) < (ps.length : Int) := by omega
+    simp only [h1, decide_true, if_true]
+    rw [index_ok _ _ (by omega) (by simpa using hlt)]
+    simp [List.getElem?_eq_getElem hlt]
+  · have h1 : ¬ (r : Int) < (ps.length : Int) := by omega
+    have h2 : ps[r]? = none := List.getElem?_eq_none (by omega)
+    simp [h1, h2]
+
+theorem partLoop_stop_le (a : Int) (iv : Knut.Interval) (last e c : Int) :
+    ∀ p ∈ partLoop a iv last e c, p.stop ≤ e := by
+  fun_induction partLoop a iv last e c with
+  | case1 e c h => intro p hp; simp at hp
+  | case2 e c h s ih =>
+    intro p hp
+    have hle : s ≤ e := by
+      have := startOf_le e iv
+      show clampStart (startOf e iv) a ≤ e
+      unfold clampStart; split <;> omega
+    rcases List.mem_cons.mp hp with rfl | hp
+    · exact Int.le_refl _
+    · have := ih p hp; omega
+
+theorem partLoop_sorted (a : Int) (iv : Knut.Interval) (last e c : Int) :
+    List.Pairwise (fun p q : Knut.Period => q.stop ≤ p.stop) (partLoop a iv last e c) := by
+  fun_induction partLoop a iv last e c with
+  | case1 e c h => exact List.Pairwise.nil
+  | case2 e c h s ih =>
+    have hle : s ≤ e := by
+      have := startOf_le e iv
+      show clampStart (startOf e iv) a ≤ e
+      unfold clampStart; split <;> omega
+    refine List.Pairwise.cons ?_ ih
+    intro q hq
+    have := partLoop_stop_le a iv last (s - 1) (c + 1) q hq
+    show q.stop ≤ e
+    omega
+
+/-- `Partition.Align` on every partition that `NewPartition` builds -/
+theorem Align_agrees {span : Knut.Period} {iv : Knut.Interval} {last : Int} {P : Knut.Partition}
+    (h : newPartition span iv last = .ok P) (d : Int) :
+    date.Partition.Align (partitionGo P) d = GoSem.Outcome.ok ((P.align d).getD 0) := by
+  unfold newPartition at h
+  split at h
+  · cases h
+  · cases h
+    apply Align_agrees_of_sorted
+    unfold periodsOf
+    split
+    · exact List.pairwise_singleton _ _
+    · exact List.pairwise_reverse.mpr (partLoop_sorted _ _ _ _ _)
+
 /-- non-vacuity: the translated code computes; 2024-02-29 is day 738944 (a Thursday) -/
 example : date.StartOf 738944 date.Monthly = 738916 ∧ date.EndOf 738944 date.Quarterly = 738975 := by decide
 example : date.NewPartition ⟨738916, 738944⟩ date.Weekly 2 =
